@@ -12,7 +12,7 @@ EXPLANATION = (
     'digest of the same loop entry; HubClient::put announces the file\'s metadata length and streams that file; (R3) a non-committed Put latches a variable (counter, bool or Option) that is never reset and guards the Ok return, the loop always goes on to the next local entry after a Put reply (a lost CAS does not stop the push), '
     'and every I/O error propagates; (R4) the client module neither deletes, mutates files, nor sends Delete; List hides only the .copia control '
     'directory; the hiding predicate must be the component-wise Path::starts_with (a string prefix would also hide .copiarc), in filter or loop form; (R5) target dispatch: host:root -> ssh -T host copia serve root, otherwise <current_exe> serve <target>; prologue and Hello precede every other request. '
-    '(R6) the hub half of the last clause: in the handlers of the hub the CAS read, cas_decide and the rename / remove are inside one held region and on the matching edge, and success replies follow the operation (the C03.R3 / R5 rules run under this property); staging and content integrity are C10. R3 is judged per outcome: every value put() can return as Ok other than the committed one (a lost CAS, a refusal the client carries on after) must on its own keep hub_sync from returning Ok. Not decided: hub end state; second-run silence (follows from R1 and C10).')
+    '(R6) the hub half of the last clause: in the handlers of the hub the CAS read, cas_decide and the rename / remove are inside one held region and on the matching edge, and success replies follow the operation (the C03.R3 / R5 rules run under this property); staging and content integrity are C10. R3 is judged per outcome: every value put() can return as Ok other than the committed one (a lost CAS, a refusal the client carries on after) must on its own keep hub_sync from returning Ok. Not decided: hub end state; second-run silence (follows from R1 and C10). R4 also: the digests of the Fingerprints payload come only from functions that hash the file when asked; digests from other crate functions or read back from stored data (a listing index) are not decided.')
 ASSUMPTIONS = ['the hub behaves as decided by C03/C10/C11/C12']
 
 
